@@ -1,4 +1,5 @@
 """Generators for the standard-library properties (C09, C13, C14, C15, C16, C17)."""
+import struct
 import os, re, datetime, struct
 from vlib.core import num, s, b, arr, COQ
 
@@ -189,6 +190,22 @@ def gen_c17(tier, R):
               "+-1", "infinit", "  ", "1e5", "1E5", "1d5"]:
         for n in ("float", "int", "bool", "str", "ord"):
             out.append(bi(1, n, [s(t)]))
+    # str(number): the shortest text that reads back as the number - powers of ten and of two with their neighbours (the rounding interval is lop-sided at a power of two),
+    # sums that need 16 or 17 digits, halves, subnormals, the largest doubles, whole numbers around 2^53, random bit patterns of every magnitude
+    shown = []
+    for e10 in (list(range(-30, 31)) + [-323, -308, -300, -100, 100, 300, 308]) if tier == 'thorough' else [-323, -308, -20, -7, -6, -5, -4, -1, 0, 1, 5, 15, 16, 17, 20, 21, 22, 23, 100, 308]:
+        v = float(f"1e{e10}")
+        shown += [v, _m.nextafter(v, 0.0), _m.nextafter(v, _m.inf), 3 * v, 9.5 * v]
+    for e2 in ([-1074, -1073, -1022, -1021, -60, -1, 0, 1, 10, 52, 53, 54, 63, 64, 100, 1023] if tier == 'quick' else list(range(-1074, 1024, 7))):
+        v = _m.ldexp(1.0, e2)
+        shown += [v, _m.nextafter(v, 0.0), _m.nextafter(v, _m.inf)]
+    shown += [0.1 + 0.2, 0.1 + 0.7, 1.1 * 1.1, 4.35 * 100, 1 / 3, 2 / 3, 1e23, 8.41e21, 9007199254740993.0, 5e-324, 1.7976931348623157e308, 2.2250738585072014e-308, 0.5, 1.5, 2.5, 1e15 + 0.5, 123456789012345680.0]
+    shown += [struct.unpack('<d', struct.pack('<Q', R.getrandbits(63)))[0] for _ in range(300 if tier == 'quick' else 60000)]
+    shown += [R.uniform(-1e6, 1e6) for _ in range(300 if tier == 'quick' else 60000)] + [float(R.randint(-10**17, 10**17)) for _ in range(100 if tier == 'quick' else 20000)]
+    for v in shown:
+        if v == v and abs(v) != _m.inf:
+            out.append(bi(1, "str", [num(v)]))
+            out.append(bi(1, "str", [num(-v)]))
     # implementation-only references: maths builtins against the f64 methods called independently, float(str(x)) = x, parity
     for _ in range(4000 if tier == 'quick' else 1000000):
         out.append(f"(mathref _ {num(rnd_double(R))})")
